@@ -198,7 +198,7 @@ let member_of (orc : oracle) (t : string) : member =
     MRec (n_of_int u, n_of_int fr, o)
   end
 
-let live_shape = n_of_int 1
+let live_shape = ref (n_of_int 1)
 
 let print_objs (mode : int) (l : (n * obj) list) =
   let toks = List.map (fun (u, o) -> (int_of_n u, rec_tok u o)) l in
@@ -210,6 +210,7 @@ let run_history (lines : string list) =
   let c = { cache = false; async = false; thr = 0; tmo = 0; compress = false; ext = []; lower = false;
             cons = Array.make nf "0000" } in
   let st = ref init_state in
+  live_shape := n_of_int 1;
   let cases = ref [] and rxs = ref [] in
   let hooks () = mk_hooks !cases !rxs in
   (* group: an op line followed by its o lines *)
@@ -252,7 +253,7 @@ let run_history (lines : string list) =
              go rest'
          | _ -> go rest)
   and exec_op (t : string list) (orc : oracle) =
-    let do_step (o : op) = let (s', r) = step (hooks ()) live_shape !st o in st := s'; r in
+    let do_step (o : op) = let (s', r) = step (hooks ()) !live_shape !st o in st := s'; r in
     let unit_line r = match r with
       | RUnit x -> emit ("r " ^ cls_res x)
       | RPanic -> emit "r panic"
@@ -341,6 +342,12 @@ let run_history (lines : string list) =
     | [ "repair" ] -> unit_line (do_step (ORepair (List.map n_of_int orc.order)))
     | [ "close" ] -> unit_line (do_step OClose)
     | [ "reopen" ] -> unit_line (do_step OReopen)
+    | [ "vopen"; k ] ->
+        (* another Go struct of the same name: 5 = reordered fields (same structure) *)
+        let k = int_of_string k in
+        live_shape := n_of_int (if k = 5 then 1 else k);
+        unit_line (do_step OReopen)
+    | [ "dirhash" ] -> emit "r ok"
     | [ "drop" ] -> unit_line (do_step ODrop)
     | [ "schema" ] -> unit_line (do_step OSchema)
     | [ "tick" ] -> unit_line (do_step OTick)
